@@ -19,7 +19,7 @@ def Q(checks, timeout=240, shards=1, **kw):
     return d
 
 
-HOOK_COMMITS = []
+HOOK_COMMITS = ["df50802"]
 
 NOT_APPLICABLE = {}
 
@@ -93,5 +93,32 @@ PROPS = {
         technique="property-based testing against a reference model + differential between unary and streamed read paths",
         level_text="Randomised exploration with limits aimed at the boundary (matches-1, matches, matches+1) and values sized to trigger size-based cuts; read paths cross-checked.",
         level_note="Trusted: internal/model.Read; gRPC KV paths are exercised in C16/C10 fixtures.",
+    ),
+    "C19": dict(
+        pkg="c19", level="exploration",
+        tests=[T("TestC19", Q(50000), Q(200000, timeout=900, shards=8))],
+        rule="Per shard (1-3 shards) a consistent world is drawn (term -> at most one leader, config-change index -> one membership, as Raft guarantees) and 1-8 updates sampled from it "
+             "(incl. 'leader unknown' at any term, stale terms); the multiset is delivered to the real view in two independent random orders with duplicates, split into batches of 1-4, "
+             "a third of the batches routed through an intermediate view's LocalState -> JSON -> MergeRemoteState. Oracle: both final views == model (max-term leader, max-CCI membership); after every "
+             "delivery the retained leader's term never decreases and is never replaced by 'no leader'. Non-trivial iff some shard saw >=3 distinct terms AND a no-leader update at or above the "
+             "retained leader's term. Distinct = sha256 of case JSON.",
+        assumptions=["updates come from a consistent Raft world (one leader per term, one membership per config-change index)",
+                     "view accessed through the add-only verif hook storage/cluster/export_verif.go"],
+        technique="property-based testing of algebraic laws (commutativity, associativity, idempotence of merge) + monotonicity invariant over the delivery history",
+        level_text="Randomised exploration of update multisets and delivery orders against a max-term/max-CCI model, 5*10^4 cases per quick run.",
+        level_note="Trusted: the consistent-world generator reflects Raft's guarantees; memberlist transport itself is not exercised.",
+    ),
+    "C13": dict(
+        pkg="c13", level="exploration",
+        tests=[T("TestC13", Q(30000), Q(150000, timeout=900, shards=8))],
+        rule="Sequences of 1-40 operations on the real kv.LFSM: set/delete with keys from a path alphabet (/tables/a, /tables/a/lease, /tables/sys/idseq, /cleanup/N/id, queue/T/n, '', ...), "
+             "UTF-8 values (JSON-looking, quotes, escapes, unicode, arbitrary rapid strings) and versions in {0, current, stale, future}; lookups get/exists/getall/getallvalues/list/listdir with the callers' "
+             "glob patterns; snapshot+restore into a fresh store at any point; a second replica fed the same entries under a different grouping into Update calls. Oracle: CAS rule against a model map "
+             "key->(value,version), mismatch result carries the current pair, new version == entry index > all earlier; glob answers == independent matcher for '<prefix>/*' shapes and == a fresh MapStore "
+             "holding exactly the model's pairs; replicas and restored store byte-equal. Non-trivial iff some key saw both a rejected and an accepted update AND a snapshot/restore happened.",
+        assumptions=["values are valid UTF-8 (every caller JSON-encodes them)", "RaftStore's error mapping on a live NodeHost is exercised by the engine-based checks (C14/C15 fixtures)"],
+        technique="stateful property-based testing against a CAS-register-map model + replica differential + snapshot round trip",
+        level_text="Randomised exploration of update/lookup/snapshot histories on the real state machine of the metadata store.",
+        level_note="Trusted: the model map; path helper semantics (List/ListDir) are compared with a fresh MapStore holding the model's pairs, not re-specified.",
     ),
 }
